@@ -18,7 +18,7 @@ def T(tier, q, t):
 
 def run(tier, seed, t0):
     m = Merged(); wd = R.workdir(ID)
-    n = T(tier, 320, 20000)
+    n = T(tier, 320, 80000)
     # a different PRNG stream than C01 (first=10^6) so that the two checks do not replay the same histories
     R.run_inv(Inv("remesh", n, "plain", args=["--oracle=c11", "--max_faces=%d" % T(tier, 400, 1500), "--max_passes=%d" % T(tier, 14, 25)], first=1000000, timeout=T(tier, 1500, 6 * 3600)), seed, wd, m)
     # time-outs inside refinement are this property's violations; other crashes stay inconclusive
